@@ -62,6 +62,26 @@ def cases(ctx, zone: str):
         yield {"tz": zone, "version": version, "metric": metric,
                "steps": prefix(version, sleeping, stored, reboot) + [["rx", message + "\n"]]}
     ctx.exhaustive["single-step-state-x-message"] = ctx.exhaustive.get("single-step-state-x-message", 0) + count
+    # "mode" messages: any message kind the gateway or a node can send (every internal type number of the protocol with
+    # payloads 0 / 1 / text, from node 0 and from a known node; stream types; acked variants) may switch something inside
+    # the controller - afterwards every specified reaction must still come: id, config, time, value, reboot
+    from .. import spec
+
+    probes = ["255;255;3;0;3;", "1;255;3;0;6;", "1;255;3;0;1;", "1;0;2;0;0;", "1;0;1;0;0;22", "9;255;3;0;3;"]
+    if zone == ZONES[0] or zone == "UTC":
+        for version in VERSIONS:
+            proto = spec.pmap(version)
+            for t in range(0, spec.INTERNAL_MAX[proto] + 2):
+                if t == spec.I_VERSION:
+                    continue
+                for sender in (0, 1):
+                    for payload, ack in (("0", 0), ("1", 0), ("off", 1), ("", 0)):
+                        if not ctx.mine():
+                            continue
+                        steps = prefix(version, False, True, True) + [["restore", 0, {"type": 18, "version": version, "children": {}}]]
+                        steps.append(["rx", f"{sender};255;3;{ack};{t};{payload}\n"])
+                        steps += [["rx", probe + "\n"] for probe in probes]
+                        yield {"tz": zone, "version": version, "steps": steps}
     # id requests on registries whose highest id is near the top of the range (an id is still free / none is)
     for version, highest, request in itertools.product([None, *VERSIONS], (1, 100, 252, 253, 254, 255),
                                                        ("255;255;3;0;3;", "255;7;3;0;3;", "9;255;3;1;3;x")):
@@ -72,8 +92,8 @@ def cases(ctx, zone: str):
     if zone in ("UTC", "Asia/Kolkata"):
         for i in range(ctx.pick(400, 20000) // ctx.shard_count):
             version = [None, *VERSIONS][i % 6]
-            yield {"tz": zone, "version": version, "metric": bool(i % 2),
-                   "steps": histories.rich_history(rng, version, rng.choice([20, 60, 150]))}
+            yield histories.with_reply_faults(rng, {"tz": zone, "version": version, "metric": bool(i % 2),
+                                                    "steps": histories.rich_history(rng, version, rng.choice([20, 60, 150]))})
     # the application flips the unit system on the live gateway between config requests
     for version in [None, *VERSIONS]:
         for first in (True, False):
